@@ -166,3 +166,16 @@ add('C12', 'break', G + 'integrator.py', '  qd = state.qd + qdd * sys.opt.timest
 add('C12', 'break', G + 'dynamics.py', 'qfrc = qfrc_passive - qfrc_bias + tau', 'qfrc = qfrc_passive + qfrc_bias + tau', 'bias force with the wrong sign')
 add('C12', 'benign', G + 'integrator.py', "  q = scan.link_types(sys, q_fn, 'lqd', 'q', sys.link, state.q, qd)", "  q = scan.link_types(sys, q_fn, 'lqd', 'q', sys.link, state.q, state.qd)", 'explicit Euler: still first-order consistent (drift O(dt)); the ordering is C02 R2.4, not C12')
 add('C12', 'benign', G + 'integrator.py', '  qd = state.qd + qdd * sys.opt.timestep', '  qd = sys.opt.timestep * qdd + state.qd', 'commuted')
+
+# ---- round-2 additions
+add('C16', 'break', 'brax/envs/humanoid.py', 'is_healthy = jp.where(pipeline_state.x.pos[0, 2] > max_z, 0.0, is_healthy)', 'is_healthy = jp.where(pipeline_state.x.pos[0, 2] > max_z, 0.0, 1.0)', 'upper height test overwrites the lower one')
+add('C16', 'break', 'brax/envs/hopper.py', 'is_healthy &= jp.logical_and(min_z < z, z < max_z)', 'is_healthy &= jp.logical_or(min_z < z, z < max_z)', 'height range test is a disjunction')
+add('C16', 'benign', 'brax/envs/ant.py', 'is_healthy = jp.where(pipeline_state.x.pos[0, 2] > max_z, 0.0, is_healthy)', 'is_healthy = is_healthy * jp.where(max_z < pipeline_state.x.pos[0, 2], 0.0, 1.0)', 'equivalent interval test')
+add('C07', 'break', W, '''    state, rewards = jax.lax.scan(f, state, (), self.action_repeat)
+    state = state.replace(reward=jp.sum(rewards, axis=0))
+    steps = state.info['steps'] + self.action_repeat''', '''    rewards = []
+    for _ in range(self.action_repeat):
+      state, r = f(state, None)
+      rewards.append(r)
+    state = state.replace(reward=sum(rewards))
+    steps = state.info['steps'] + self.action_repeat''', 'python loop instead of scan: info dict shared with the input state')
